@@ -80,3 +80,76 @@ Proof.
   specialize (Hget (N.to_nat (te_sidx e + tid - te_tid e)) (tokv tid)).
   rewrite N2Nat.id in Hget. apply Hget. rewrite Hg. rewrite nth_error_map, Hval. reflexivity.
 Qed.
+
+(* ---------------------------------------------------------------- statements in the shape Props.v exports *)
+Theorem varint_roundtrip_full : forall x, (-9223372036854775808 <= x < 9223372036854775808)%Z ->
+  (forall rest, get_varint (put_varint x ++ rest) = DOk (x, rest)) /\ 1 <= length (put_varint x) <= 10.
+Proof.
+  intros x Hx. assert (H : i64 x) by exact Hx. split; [intros rest; apply varint_roundtrip; exact H|].
+  apply (varint_rt x [] H).
+Qed.
+
+Theorem varint_decode_total : forall buf,
+  match get_varint buf with
+  | DOk (v, rest) => (-9223372036854775808 <= v < 9223372036854775808)%Z
+                     /\ exists pre, buf = pre ++ rest /\ 1 <= length pre <= 10
+  | DErr => True
+  | _ => False
+  end.
+Proof. exact get_varint_total. Qed.
+
+Theorem ids_blocks_bytes_roundtrip : forall mids rids pos,
+  Forall (fun x => x < 18446744073709551616)%N mids -> Forall (fun x => x < 18446744073709551616)%N rids ->
+  Forall (fun x => x < 18446744073709551616)%N pos ->
+  unpack_ids_varint (pack_mids mids) = DOk mids
+  /\ unpack_rids 1 (pack_rids rids) = DOk rids
+  /\ unpack_rids 0 (pack_mids rids) = DOk rids
+  /\ unpack_ids_varint (pack_pos pos) = DOk pos.
+Proof.
+  intros mids rids pos Hm Hr Hp. split; [apply mids_roundtrip; exact Hm|]. split; [|split].
+  - apply rids_raw_roundtrip. exact Hr.
+  - apply mids_roundtrip. exact Hr.
+  - apply mids_roundtrip. exact Hp.
+Qed.
+
+Theorem positions_block_roundtrip : forall total offs,
+  (total < 4294967296)%N -> (N.of_nat (length offs) < 4294967296)%N -> Forall (fun x => x < 18446744073709551616)%N offs ->
+  load_positions (pack_positions total offs) = DOk (N.of_nat (length offs), total, offs).
+Proof. exact positions_roundtrip. Qed.
+
+(* ID block decoders on arbitrary bytes: never out of fuel (value, or the explicit panic of unpackRawIDsVarint /
+   the index panic of Uint64 on a short tail) *)
+Theorem ids_decoders_total : forall v src, unpack_rids v src <> DFuel.
+Proof.
+  intros v src. unfold unpack_rids. destruct (v <? 1)%N.
+  - apply unpack_ids_varint_go_fuel. lia.
+  - assert (H : forall n l, length l <= n -> unpack_ids_raw l <> DFuel).
+    { induction n as [|n IH]; intros l Hl.
+      - destruct l; [discriminate|simpl in Hl; lia].
+      - destruct l as [|b0 [|b1 [|b2 [|b3 [|b4 [|b5 [|b6 [|b7 r]]]]]]]]; try discriminate.
+        cbn [unpack_ids_raw]. simpl in Hl. specialize (IH r ltac:(lia)).
+        destruct (unpack_ids_raw r); cbn [dbind]; congruence. }
+    apply (H (length src)). lia.
+Qed.
+
+Theorem tokens_block_bytes_roundtrip : forall groups,
+  Forall (Forall (fun t => N.of_nat (length t) < 4294967295)%N) groups ->
+  (N.of_nat (length (pack_phys groups)) < 4294967296)%N ->
+  exists offs, blk_unpack (pack_phys groups) = DOk offs /\
+    forall k t, nth_error (concat groups) k = Some t -> get_val (pack_phys groups) offs (N.of_nat k) = DOk t.
+Proof. exact tokens_block_roundtrip. Qed.
+
+Theorem token_table_bytes_roundtrip : forall fs, Forall field_ok fs -> load_table (pack_table fs) = DOk (map lfield_of fs).
+Proof. exact token_table_roundtrip. Qed.
+
+Theorem index_header_roundtrip : forall hs, Forall hdr_ok hs ->
+  read_registry (pack_registry hs) = map hdr3 hs
+  /\ (forall i h, nth_error hs i = Some h ->
+        get_header (pack_registry hs) i = DOk (pack_hdr h) /\ forall rest, unpack_hdr (pack_hdr h ++ rest) = h)
+  /\ (forall i, length hs <= i -> get_header (pack_registry hs) i = DErr).
+Proof.
+  intros hs Hok. split; [apply registry_roundtrip; exact Hok|]. split.
+  - intros i h Hn. split; [apply get_header_roundtrip; exact Hn|].
+    intros rest. apply header_roundtrip. rewrite Forall_forall in Hok. apply Hok. eapply nth_error_In. exact Hn.
+  - intros i Hi. apply get_header_beyond. exact Hi.
+Qed.
